@@ -206,6 +206,12 @@ def run_c09(case, eng, res):
         rows = None
         if op == "create_schedule":
             rows = [r for r in timeenv.build_zone_table(["UTC"])]
+        if case.get("after_good"):
+            # a successful exchange first: nothing remembered from it may stand in for the failed login that follows
+            first = A.run_op(path, dict(c, simple=True), zone_rows=rows, tag="first")
+            run = A.run_op(path, c, reply_plan=plan, zone_rows=rows, api=first.api, dev=first.dev)
+            run.extra["first"] = first
+            return run
         return A.run_op(path, c, reply_plan=plan, zone_rows=rows)
 
     n = 0
@@ -244,8 +250,20 @@ def run_c09(case, eng, res):
                 continue
             m = path.refute(bterm(bad) if not isinstance(bad, bool) else z3.BoolVal(bad))
             if m is not None:
-                res["violations"].append({"what": "C09 %s (%s) %s" % (lbl, op, detail), "case": case, "replay": A.replay_spec(run, m, "C09")})
+                if case.get("after_good"):
+                    ops = []
+                    for rr in (run.extra["first"], run):
+                        s_ = A.replay_spec(rr, m, None)
+                        ops.append({k: s_[k] for k in ("api", "dev_id", "key", "op", "args", "replies", "clock", "remote") if k in s_})
+                    rp = {"kind": "api_seq", "mode": "seq", "ops": ops, "schedule": [], "oracle": "C09seq"}
+                else:
+                    rp = A.replay_spec(run, m, "C09")
+                res["violations"].append({"what": "C09 %s (%s) %s" % (lbl, op, detail), "case": case, "replay": rp})
         mw = path.witness()
+        if case.get("after_good"):
+            if len(res["samples"]) < 1:
+                res["samples"].append({"case": case, "outcome": run.outcome, "frames": len(run.frames)})
+            continue
         res["witnesses"].append({"replay": A.replay_spec(run, mw, None),
                                  "expected": {"exception": type(run.result).__name__ if run.outcome == "exc" else None,
                                               "nframes": len(run.frames),
@@ -291,6 +309,8 @@ def main_c09(tier):
     for op in BASE_OPS:
         for l0 in lens0 + [("tail", 12)]:
             cases.append({"op": op, "l0": l0, "l1": ("tail", 0)})
+    for op in STATE_OPS + ["stop", "set_position"]:
+        cases.append({"op": op, "l0": 0, "l1": ("tail", 101), "after_good": True})
     for g in ([1, 1, 1, 1, 1], [0, 0, 0, 0, 1], [1, 0, 0, 0, 0], [0, 0, 0, 0, 0], [0, 1, 0, 1, 0]):
         for sep in (False, True):
             for upd in (False, True):
